@@ -44,7 +44,12 @@ ARITH = ('ADD', 'SUB', 'MUL', 'DIV')
 
 def uvl_expr(a, rng, top=True):
     """fully parenthesised (so that the text denotes exactly the tree), plus redundant parentheses at random"""
-    if isinstance(a, str):
+    if isinstance(a, tuple) and a[0] == 'ref':
+        # dotted reference: every part is an identifier of its own (quoted or bare)
+        t = '.'.join(uvl_id(part, rng) for part in a[1:])
+    elif isinstance(a, str) and a.startswith("'"):
+        t = a               # string constant
+    elif isinstance(a, str):
         t = uvl_id(a, rng)
     elif isinstance(a, bool):
         t = 'true' if a else 'false'
@@ -65,12 +70,17 @@ def uvl_expr(a, rng, top=True):
     return t
 
 
-def uvl_random_ctc(rng, names, int_names, depth):
+def uvl_random_ctc(rng, names, int_names, depth, str_names=(), attr_refs=()):
     if depth == 0 or rng.random() < 0.2:
         return rng.choice(names)
     r = rng.random()
     if r < 0.15:
-        return ['NOT', uvl_random_ctc(rng, names, int_names, depth - 1)]
+        return ['NOT', uvl_random_ctc(rng, names, int_names, depth - 1, str_names, attr_refs)]
+    if r < 0.22 and str_names:
+        return [rng.choice(['EQUALS', 'NOT_EQUALS']), rng.choice(list(str_names)), rng.choice(["'acme'", "'two words'", "'A'", "'x-y'"])]
+    if r < 0.3 and attr_refs:
+        f, an = rng.choice(list(attr_refs))
+        return [rng.choice(CMP), ('ref', f, an), rng.randint(0, 9)]
     if r < 0.3 and int_names:
         def term(d):
             if d == 0 or rng.random() < 0.5:
@@ -79,7 +89,8 @@ def uvl_random_ctc(rng, names, int_names, depth):
         return [rng.choice(CMP), term(1), term(1)]
     if r < 0.36:
         return [rng.choice(CMP), [rng.choice(['SUM', 'AVG']), 'cost'] + ([rng.choice(names)] if rng.random() < 0.6 else []), rng.randint(1, 20)]
-    return [rng.choice(LOGIC), uvl_random_ctc(rng, names, int_names, depth - 1), uvl_random_ctc(rng, names, int_names, depth - 1)]
+    return [rng.choice(LOGIC), uvl_random_ctc(rng, names, int_names, depth - 1, str_names, attr_refs),
+            uvl_random_ctc(rng, names, int_names, depth - 1, str_names, attr_refs)]
 
 
 VALUES = [True, False, 0, 12, 3.75, 'plain', 'two words', [1, 2, 3], ['a', True, 2.5], {'k': 1, 'flag': None}, {'outer': {'inner': [1, 2]}}]
@@ -168,7 +179,9 @@ def emit_uvl(rng, invalid=None, own_line_comments=False):
     if nctc:
         lines += ['', 'constraints'] if rng.random() < 0.7 else ['constraints']
         for i in range(nctc):
-            a = uvl_random_ctc(rng, all_names, int_names, 3)
+            str_names = [f['name'] for f, _, _ in d_features(desc) if f.get('type') == 'String']
+            attr_refs = [(f['name'], at['name']) for f, _, _ in d_features(desc) for at in f.get('attrs', [])]
+            a = uvl_random_ctc(rng, all_names, int_names, 3, str_names, attr_refs)
             desc['ctcs'].append({'name': f'Constraint {i}', 'ast': a})
             lines.append('\t' + uvl_expr(a, rng))
     text = '\n'.join(lines) + '\n'
@@ -178,6 +191,16 @@ def emit_uvl(rng, invalid=None, own_line_comments=False):
         text = text.rstrip('\n') + ('\n\t& => |\n' if nctc else '\nconstraints\n\t=> ' + uvl_id(all_names[0], rng) + ' &\n')
     elif invalid == 'keyword':
         text = text.replace('features\n', 'featurez\n', 1)
+    elif invalid == 'lexical':
+        # a token the lexer cannot form: a string constant with a dot, or a character outside the alphabet of the language
+        how = rng.choice(['string', 'char', 'char2'])
+        if how == 'string':
+            text = text.rstrip('\n') + ('\n' if nctc else '\nconstraints\n') + '\t' + uvl_id(all_names[0], rng) + " == 'x.y'\n"
+        else:
+            ls = text.split('\n')
+            k = ls.index('features') + 1
+            ls[k] = ls[k].split('//')[0].rstrip() + (' \u00a7' if how == 'char' else ' ~')
+            text = '\n'.join(ls)
     elif invalid == 'indent':
         ls = text.split('\n')
         k = ls.index('features') + 1
@@ -466,8 +489,22 @@ def emit_afm(rng):
         else:
             t = expr(a[1], False) + ' ' + ops[a[0]] + ' ' + expr(a[2], False)
         return t if top and rng.random() < 0.7 else '(' + t + ')'
-    for i in range(rng.choice([0, 1, 2, 3])):
-        a = c06.afm_ctc(rng, names, 3)
-        d['ctcs'].append({'name': f'c{i}', 'ast': a})
-        lines.append(expr(a) + ';')
+    # an attribute declaration and a feature-scoped block "F { ... }" (names inside the block are attributes of F: F.name)
+    scoped = rng.random() < 0.3
+    if scoped:
+        owner = rng.choice(names)
+        k = lines.index('%Attributes')
+        lines.insert(k + 1, f'{owner}.lvl: Integer [0 to 9],1,0;')
+        lines.insert(k + 2, f'{owner}.grade: Integer [0 to 5],1,0;')
+    n_ctc = rng.choice([0, 1, 2, 3])
+    at = rng.randint(0, n_ctc) if scoped else -1
+    for i in range(n_ctc + 1):
+        if i == at:
+            op = rng.choice(['IMPLIES', 'AND', 'REQUIRES'])
+            d['ctcs'].append({'name': f'b{i}', 'ast': [op, owner + '.lvl', owner + '.grade'], 'scoped': True})
+            lines.append(owner + ' { lvl ' + op + ' grade; }')
+        if i < n_ctc:
+            a = c06.afm_ctc(rng, names, 3)
+            d['ctcs'].append({'name': f'c{i}', 'ast': a})
+            lines.append(expr(a) + ';')
     return d, '\n'.join(lines) + '\n'
